@@ -355,6 +355,81 @@ class ShapesMag(Shapes):
         return out
 
 
+class SharedMatrix(SubCheck):
+    """one Matrix object handed to two shapes (positionally, by keyword, through * and *=): each shape owns its transform -
+    mutating, reifying or re-transforming one of them changes neither the other shape nor the caller's matrix"""
+    name = "shared-matrix"
+    single_outcome_ok = True        # the expected outcome is the same for every case: nothing shared
+
+    def __init__(self, svg):
+        self.svg = svg
+        self.p = Product(["rect", "circle", "ellipse", "line", "polyline", "path"], ["positional", "keyword", "mul", "imul"],
+                         ["reify", "imul", "transform.post_scale", "abs"])
+
+    def size(self):
+        return len(self.p)
+
+    def case(self, i):
+        k, how, op = self.p[i]
+        return dict(kind=k, how=how, op=op)
+
+    def make(self, kind, how, mat):
+        svg = self.svg
+        ctor = {"rect": (svg.Rect, (2, 3, 7, 5, 1.5, 1)), "circle": (svg.Circle, (4, -3, 2.5)), "ellipse": (svg.Ellipse, (4, -3, 2.5, 1.25)),
+                "line": (svg.SimpleLine, (1, 2, 6, -4)), "polyline": (svg.Polyline, ((1, 2), (6, -4), (8, 3))),
+                "path": (svg.Path, ("M1,1 L3,-2 Q7,5 -4,1.5 z",))}[kind]
+        cls, args = ctor
+        if how == "positional" and kind in ("rect", "circle", "ellipse", "line"):
+            return cls(*(args + (mat,)))
+        if how in ("positional", "keyword"):
+            return cls(*args, transform=mat)
+        s = cls(*args)
+        if how == "mul":
+            return s * mat
+        s *= mat
+        return s
+
+    def run(self, case):
+        out = Outcome()
+        svg = self.svg
+        M = (2.0, 0.0, 0.0, 3.0, 5.0, -7.0)
+        mat = svg.Matrix(*M)
+        try:
+            a = self.make(case["kind"], case["how"], mat)
+            b = self.make(case["kind"], case["how"], mat)
+            before = [repr(s) for s in b.segments()]
+            op = case["op"]
+            if op == "reify":
+                a.reify()
+            elif op == "imul":
+                a *= svg.Matrix(0, 1, -1, 0, 3, 4)
+            elif op == "transform.post_scale":
+                a.transform.post_scale(2, 0.5)
+            else:
+                c = abs(a)
+                c *= svg.Matrix(0, 1, -1, 0, 3, 4)
+                c.reify()
+            after = [repr(s) for s in b.segments()]
+        except Exception as e:  # noqa
+            out.fail("shared-matrix history raised %s" % type(e).__name__, None, repr(e), kind="exception", **case)
+            return out
+        out.traces += 1
+        out.transitions += 1
+        out.nontrivial.append(tuple(sorted(case.items())))
+        got = (float(mat.a), float(mat.b), float(mat.c), float(mat.d), float(mat.e), float(mat.f))
+        out.outcome = (after == before, got == M)
+        if got != M:
+            out.fail("the caller's Matrix changed after %s on a %s built with it (%s)" % (case["op"], case["kind"], case["how"]),
+                     list(M), list(got), kind="shared-matrix", what="caller", **case)
+        if after != before:
+            out.fail("a second %s built from the same Matrix object changed after %s on the first (%s)" % (
+                case["kind"], case["op"], case["how"]), before[:3], after[:3], kind="shared-matrix", what="sibling", **case)
+        return out
+
+    def unit_test(self, case):
+        return None
+
+
 class AutoRadius(SubCheck):
     """a rect with exactly one corner radius given: the other one is the *used* value of the given one (SVG 1.1 and 2
     agree on that, whatever a percentage refers to), so both corner radii are equal unless a half-size clamps one"""
@@ -433,7 +508,7 @@ def stale_check(svg, tier):
 
 
 def build(tier, seed, svg):
-    return [Shapes(svg, tier), ShapesMag(svg, tier), AutoRadius(svg), stale_check(svg, tier)]
+    return [Shapes(svg, tier), ShapesMag(svg, tier), AutoRadius(svg), SharedMatrix(svg), stale_check(svg, tier)]
 
 
 def m_round_direction(d):
